@@ -158,6 +158,23 @@ def compare(a, b, path=""):
     return None if a == b else (path or "/")
 
 
+def _ix(x):
+    return "slice:" + repr(x) if isinstance(x, slice) else arr(np.asarray(x))
+
+
+def dofsview_state(d):
+    """Everything a DofsView holds or refers to (for immutability checks)."""
+    out = {f: _ix(getattr(d, f)) for f in (
+        "nodal_ix", "facet_ix", "edge_ix", "interior_ix", "nodal_rows",
+        "facet_rows", "edge_rows", "interior_rows")}
+    for f in ("nodal_dofs", "facet_dofs", "edge_dofs", "interior_dofs",
+              "element_dofs"):
+        out["obj." + f] = arr(getattr(d.obj, f))
+    if d.doflocs is not None:
+        out["doflocs"] = arr(d.doflocs)
+    return out
+
+
 def has_sparse(v, depth=0):
     import scipy.sparse as sp
     if sp.issparse(v):
@@ -183,6 +200,12 @@ def operand_arrays(v, depth=0, canonical=False):
         return digest.jdigest([basis(v), mesh(v.mesh)])
     if isinstance(v, np.ndarray):
         return digest.jdigest(arr(v))
+    if type(v).__name__ == "DofsView":
+        return digest.jdigest(dofsview_state(v))
+    if isinstance(v, dict) and v and all(
+            type(x).__name__ == "DofsView" for x in v.values()):
+        return digest.jdigest({str(k): dofsview_state(x)
+                               for k, x in v.items()})
     if sp.issparse(v):
         if hasattr(v, "indptr") and not canonical:
             return digest.jdigest(digest.sparse_raw(v))
